@@ -65,12 +65,15 @@ CLAIMED = [
 ]
 
 # fragments written by the module builders are merged once their checks have been accepted by the coordinator
-READY_FRAGMENTS = {'C19', 'C20', 'C06', 'C07', 'C18'}
+READY_FRAGMENTS = {'C19', 'C20', 'C06', 'C07', 'C18', 'C13', 'C14'}
 
 PENDING = {
 }
 
 ENGINES = [
+    dict(name='tla-props', path='spec/OVMProps.tla spec/OVMPropsMC.tla spec/OVMPropsTrace.tla harness/props_exec.cc bin/props_check.py',
+         serves_properties=['C13', 'C14'],
+         kind_free_text='explicit TLA+ state machine of the property registry, handle lifetimes and mesh copy/assignment; exhaustively explored by TLC, every explored transition replayed on the C++ library under ASan/UBSan, recorded traces validated by TLC'),
     dict(name='tla-io', path='spec/OVMB.tla spec/OVMBMachine.tla spec/OVMBGen.tla spec/OVMAscii.tla spec/OVMIOTrace.tla harness/io_exec.cc bin/io_check.py',
          serves_properties=['C06', 'C07', 'C18'],
          kind_free_text='byte-level TLA+ formalisation of the OVMB format and token-level model of OVM-ASCII used as decoder, as generator of alternative encodings and of field-aware corruptions; files written / read by the C++ library are validated by TLC; fault enumeration replayed under ASan/UBSan'),
